@@ -287,6 +287,15 @@ class PyIndex:
     def func(self, modname: str, qualname: str) -> FuncInfo:
         fi = self.funcs.get(f'{modname}:{qualname}')
         if fi is None:
+            # moved to another module of the package (and perhaps imported back): a unique function of that name is the same anchor
+            sym = self.resolve(modname, qualname) if '.' not in qualname and modname in self.modules else None
+            if sym is not None and sym.kind == 'func':
+                fi = self.funcs.get(f'{sym.module}:{sym.name}')
+            if fi is None:
+                hits = [f for f in self.funcs.values() if f.qualname == qualname]
+                if len(hits) == 1:
+                    fi = hits[0]
+        if fi is None:
             raise AnchorMissing(f'function {modname}:{qualname}')
         return fi
 
